@@ -6,6 +6,8 @@ sys.path.insert(0, HERE)
 ROOT = os.path.dirname(HERE)
 from areas import AREAS
 
+ENGINE_PATHS = {"peers": "specs/peers (BadNode.tla, MCBadNode.tla, BadNodeTrace.tla) + lib/areas/replication.py peers_stage + harness/drv_peers",
+                "network": "specs/network (Network.tla = node handlers over INSTANCE ReplFetcher + Replication lattice; MCNetwork.tla message bag, phases, liveness; NetworkTrace.tla) + lib/areas/replication.py network_stage + harness/drv_net/src/bin/drv_netw.rs"}
 NOT_YET = "check not built yet (construction order in DESIGN.md Appendix D); nothing is claimed for this property at this commit"
 
 def main():
@@ -28,6 +30,8 @@ def main():
                 "technique": meta["technique"],
             })
             engines.setdefault(meta["engine"], []).append(p)
+            for extra in meta.get("more_engines", []):
+                engines.setdefault(extra, []).append(p)
     hooks_commits = []
     hp = os.path.join(ROOT, "hooks_commits.txt")
     if os.path.exists(hp):
@@ -46,7 +50,7 @@ def main():
             "source_commits": hooks_commits,
             "add_only": True,
         },
-        "engines": [{"name": e, "path": "specs/%s + lib/areas/%s.py + harness" % (e, e), "serves_properties": ps,
+        "engines": [{"name": e, "path": ENGINE_PATHS.get(e, "specs/%s + lib/areas/%s.py + harness" % (e, e)), "serves_properties": ps,
                      "kind_free_text": "TLA+ specification checked by TLC; TLC-generated cases replayed into the real code; recorded traces validated by TLC against the trace specification"}
                     for e, ps in engines.items()],
         "checks": checks,
